@@ -148,7 +148,11 @@ def check_completeness(inp) -> list:
     out = []
     for order in _orders(inp):
         cut = (inp.get("cutoff") or {}).get(str(order))
-        bs = _basis(inp, order)
+        if inp.get("hooks"):
+            with Hooks(**inp["hooks"]):
+                bs = ph.basis_cls(order)(cr.atoms(), cutoff=cut).run()
+        else:
+            bs = _basis(inp, order)
         near = _near_from(cr, cut)
         dim, W = ph.reference_dimension(cr, order, near=near)
         nb = bs.basis_set.shape[1]
@@ -168,9 +172,18 @@ def check_completeness(inp) -> list:
             if len(forced):
                 idx = np.unravel_index(forced[0], ph.tensor_shape(N, order))
                 ex = [int(x) for x in idx]
+            f1 = {}
+            if order == 4:
+                # the space that finding F1 predicts exactly: admissible tensors that vanish on every (p,p,q,q) element
+                W1 = ph.restrict_zero(W, ph.ppqq_mask(N))
+                f1["f1_dim"] = int(W1.shape[1])
+                if nb == W1.shape[1] and nb:
+                    f1["f1_span_dev"] = float(np.abs(W1 @ (W1.T @ full) - full).max())
+                elif nb == 0 and W1.shape[1] == 0:
+                    f1["f1_span_dev"] = 0.0
             out.append({"msg": f"order {order}: {nb} basis vectors but the admissible space has dimension {dim} "
                                f"(computed span inside reference: dev {inside:.1e})",
-                        "forced_zero_example": ex, "order": order, "n_forced_zero": int(len(forced))})
+                        "forced_zero_example": ex, "order": order, "n_forced_zero": int(len(forced)), "nb": int(nb), **f1})
         else:
             dev = float(np.abs(W @ (W.T @ full) - full).max())
             if dev > 1e-7:
@@ -253,6 +266,32 @@ def check_recovery(inp) -> list:
         if rel > inp.get("tol", 1e-6):
             out.append(f"solver {orders}: order {o} not recovered (rel. error {rel:.3e})")
     return out
+
+
+def check_recovery_reference(inp) -> list:
+    """C05 against the INDEPENDENT admissible space: force constants drawn from the dense reference space (all
+    permutation-symmetric, space-group invariant, sum-rule obeying tensors) must be recovered by the fit."""
+    cr = _cr(inp)
+    N = len(cr.numbers)
+    order = _orders(inp)[0]
+    dim, W = ph.reference_dimension(cr, order)
+    if dim == 0:
+        return []
+    rs = np.random.default_rng(inp.get("data_seed", 0))
+    truth = (W @ rs.normal(size=dim)).reshape(ph.tensor_shape(N, order))
+    S = inp.get("n_snap", int(np.ceil(3.0 * dim / (3 * N))) + 6)
+    u = rs.normal(scale=0.05, size=(S, N, 3))
+    F = ph.taylor_forces({order: truth}, u)
+    try:
+        got, _ = _fit(cr, [order], u, F, compact=False)
+    except np.linalg.LinAlgError:
+        return []
+    rel = float(np.abs(got[order] - truth).max() / max(np.abs(truth).max(), 1e-300))
+    if rel > 1e-6:
+        nb = ph.get_basis(cr, order).basis_set.shape[1]
+        return [{"msg": f"order {order}: admissible force constants (reference space of dimension {dim}) are not recovered "
+                        f"(rel. error {rel:.3e}; basis has {nb} vectors)", "order": order, "dim": dim, "nb": int(nb)}]
+    return []
 
 
 def check_normal_equations(inp) -> list:
@@ -799,6 +838,7 @@ CHECKS = {
     "basis_invariants": check_basis_invariants,
     "completeness": check_completeness,
     "recovery": check_recovery,
+    "recovery_reference": check_recovery_reference,
     "normal_equations": check_normal_equations,
     "fit_relations": check_fit_relations,
     "cutoff": check_cutoff,
